@@ -12,7 +12,7 @@ Request (one line, S-expressions):
 opd   := (p <kind>) | (m <layer>+) | (h <name> <gen> <ni|it|(fw n)|(bi n)> (<HM> <beh>)*)
 layer := (L <name> (d <key>*) <src>)       src := - | (own <meta>) | (sh <proto> <meta>|-)
 meta  := (M <tag> (ops (<MetaKeyId> <mv>)*) (named <key>*) <- | (ty <id>) | bad> <0|1 baseBad>)
-mv    := (f <beh>) | nc | (ch (<mid>*) <beh>|-)
+mv    := (f <beh>) | (nat <rv>) | nc | (ch (<mid>*) <beh>|-)
 beh   := (r <rv>) | u | t | (c <n>)        rv := null | b0 | b1 | i<n> | str | self | lst | tup | iter | rng | pmap | gen | innernext | inneriter | nest:<d>:<lst|int|back>
 Response: `<event>;<event>;… => <result>`, event = `n<tag>.<key> self=<av> args=[<av>,…]`.
 -/
@@ -76,6 +76,7 @@ def parseBeh : Sexp → Option Beh
 
 def parseMV : Sexp → Option MV
   | .atom "nc" => some .nonCallable
+  | .list [.atom "nat", .atom v] => (parseRV v).map MV.native
   | .list [.atom "f", b] => (parseBeh b).map MV.fn
   | .list [.atom "ch", .list mids, .atom "-"] => (mids.mapM Sexp.nat?).map (fun ms => MV.chain ms none)
   | .list [.atom "ch", .list mids, b] => do
@@ -168,6 +169,7 @@ def avStr : AV → String
   | .key k => s!"s:{keyName k}"
   | .native => "native"
   | .builtin => "builtin"
+  | .keys ks => "(t" ++ String.join (ks.map (fun k => " s:" ++ keyName k)) ++ ")"
   | .shown pre => s!"shown:{match pre with | some t => tyStr t | none => "-"}"
   | .ty t => s!"ty:{tyStr t}"
 
@@ -275,6 +277,11 @@ def handle (line : String) : String :=
     (do pure (outStr (methodCall mods (← parseOpd a) (← k.nat?)))).getD "bad-request"
   | [.atom "accessassign", a, k] =>
     (do pure (outStr (accessAssign (← parseOpd a) (← k.nat?)))).getD "bad-request"
+  | [.atom "matchlast", a] => ((parseOpd a).map (fun o => outStr (matchLast o))).getD "bad-request"
+  | [.atom "callpacked", a] => ((parseOpd a).map (fun o => outStr (callPacked o))).getD "bad-request"
+  | [.atom "apiindexassign", a, i] =>
+    (do pure (outStr (apiIndexAssign (← parseOpd a) (← parseIdx i)))).getD "bad-request"
+  | [.atom "literal", l] => ((parseLayer l).map (fun l => outStr (literalKeys l))).getD "bad-request"
   | [.atom "daccess", d, k] =>
     (do pure (outStr (derivedAccess (← parseDerived d) (← k.nat?)))).getD "bad-request"
   | [.atom "dmethod", d, k] =>
